@@ -7,7 +7,7 @@ THEOREMS = ["Hyp.Field." + t for t in (
     "c01_refinement", "c01_inrange", "c01_eq", "c01_any", "c01_gt", "c01_ge", "c01_lt", "c01_le",
     "c01_docids", "c01_noteq", "c01_notany", "c01_notinrange", "c01_inverted_range_empty", "c01_any_nil",
     "c01_no_stale", "c01_eq_tuple_is_range")]
-CASES = {"quick": 2000, "thorough": 40000}
+CASES = {"quick": 4000, "thorough": 40000}
 BUDGET_S = {"quick": 40, "thorough": 700}
 RULE = ("histories of 5-60 (thorough: up to 400) index/reindex/unindex/reset calls over docids 0..15 plus "
         "extreme ids, 3-8 values (int or str, order-preservingly ranked for the model), 20% no-value, "
